@@ -32,6 +32,14 @@ Theorem C11_getters_history_independent : forall (V : Type) (O : oracle V), (exi
 Proof. exact getters_history_independent. Qed.
 Print Assumptions C11_getters_history_independent.
 
+(** Pure evaluators of the public API (the [*_contributions] functions, ideal-gas-only evaluations) never reach the
+    cache: an API-level history with them is the history without them (tied to the code by the snapshot comparison of the
+    replayed histories and by the "cache untouched" check of the API sweep). *)
+Theorem C11_pure_evaluators_invisible : forall (nc : nat) (h : list gop),
+  flat_map (expand nc) (filter (fun o => negb (is_pure o)) h) = flat_map (expand nc) h.
+Proof. exact pure_evaluators_invisible. Qed.
+Print Assumptions C11_pure_evaluators_invisible.
+
 (** The same on a pool of states with [State::clone]: whatever was evaluated before on the state or on
     the state it was cloned from, every getter returns the jet's value. *)
 Theorem C11_pool_refines_jet : forall (V : Type) (O : oracle V) (J : pd -> V), consistent V O J ->
